@@ -26,6 +26,11 @@ def timerange(starttime,stoptime,dt,exclusive=True):
     starttime=starttime*1.0
     stoptime=stoptime*1.0
     dt=dt*1.0
+    precision=max(scale(starttime),scale(dt))
+    # snap a stop time that is a grid point up to float noise (e.g. 0.008+0.001) onto the grid
+    snapped=normalize(stoptime,base=dt,offset=starttime,precision=precision)
+    if abs(snapped-stoptime) < abs(dt)*1e-6:
+        stoptime=snapped
     i=starttime
     timerange=[]
     while i <= stoptime*1.0:
